@@ -120,9 +120,8 @@ impl Package {
 
         // pull every base directory name in the package and create the directory in advance
         for dir in dirs {
-            let dir_path = dest
-                .as_ref()
-                .join(Path::new(dir).strip_prefix("/").unwrap_or(dest.as_ref()));
+            let dir_path = path_below(dest.as_ref(), Path::new(dir))?;
+            refuse_symlinks(dest.as_ref(), &dir_path, true)?;
             fs::create_dir_all(&dir_path)?;
         }
 
@@ -130,12 +129,11 @@ impl Package {
         // instead of reading each file entirely into memory (while the archive is also entirely in memory) before writing them
         for file in self.files()? {
             let file = file?;
-            let file_path = dest.as_ref().join(
-                file.metadata
-                    .path
-                    .strip_prefix("/")
-                    .unwrap_or(dest.as_ref()),
-            );
+            // The package is untrusted: neither ".." components, absolute names nor symbolic
+            // links created by earlier entries may lead outside of the destination directory.
+            let file_path = path_below(dest.as_ref(), &file.metadata.path)?;
+            let is_dir = matches!(file.metadata.mode, FileMode::Dir { .. });
+            refuse_symlinks(dest.as_ref(), &file_path, is_dir)?;
 
             let perms = fs::Permissions::from_mode(file.metadata.mode.permissions().into());
             match file.metadata.mode {
@@ -144,6 +142,13 @@ impl Package {
                     fs::set_permissions(&file_path, perms)?;
                 }
                 FileMode::Regular { .. } => {
+                    // never write through an existing symbolic link
+                    if file_path
+                        .symlink_metadata()
+                        .is_ok_and(|m| m.file_type().is_symlink())
+                    {
+                        fs::remove_file(&file_path)?;
+                    }
                     let mut f = fs::File::create(&file_path)?;
                     f.write_all(&file.content)?;
                     fs::set_permissions(&file_path, perms)?;
@@ -482,6 +487,54 @@ impl Package {
 
         Ok(())
     }
+}
+
+/// Join a path taken from a package onto the extraction root; the result never leaves the root.
+fn path_below(root: &Path, path: &Path) -> Result<PathBuf, Error> {
+    let mut joined = root.to_path_buf();
+    for component in path.components() {
+        match component {
+            std::path::Component::Normal(name) => joined.push(name),
+            std::path::Component::RootDir | std::path::Component::CurDir => {}
+            _ => {
+                return Err(Error::Io(io::Error::new(
+                    io::ErrorKind::InvalidInput,
+                    format!(
+                        "path {} would leave the extraction directory",
+                        path.display()
+                    ),
+                )));
+            }
+        }
+    }
+    Ok(joined)
+}
+
+/// Fail if a directory between `root` and `path` (and `path` itself when `including_last`) exists
+/// as a symbolic link: following it could lead outside of the extraction directory.
+fn refuse_symlinks(root: &Path, path: &Path, including_last: bool) -> Result<(), Error> {
+    let relative = path.strip_prefix(root).unwrap_or(path);
+    let count = relative.components().count();
+    let mut current = root.to_path_buf();
+    for (i, component) in relative.components().enumerate() {
+        current.push(component);
+        if i + 1 == count && !including_last {
+            break;
+        }
+        if current
+            .symlink_metadata()
+            .is_ok_and(|m| m.file_type().is_symlink())
+        {
+            return Err(Error::Io(io::Error::new(
+                io::ErrorKind::InvalidInput,
+                format!(
+                    "refusing to extract through the symbolic link {}",
+                    current.display()
+                ),
+            )));
+        }
+    }
+    Ok(())
 }
 
 #[derive(Clone, Debug, PartialEq)]
